@@ -91,6 +91,8 @@ def replay_chunk(args):
                 okw = {}
                 if case.get("opt") == "int96":
                     okw["times"] = "int96"
+                elif case.get("opt") == "hive":
+                    okw["file_scheme"] = "hive"          # the same table as a multi-file dataset (one part file per row group)
                 elif case.get("opt") == "fixed":
                     okw["fixed_text"] = {"x": 8}          # no value of the text / bytes classes is longer than 8 bytes
                 elif case.get("opt") == "explicit":
@@ -112,8 +114,11 @@ def replay_chunk(args):
                     out["drift"].append({"what": "write raised where the model writes", "sig": sig,
                                          "exc": "%s: %s" % (type(raised).__name__, str(raised)[:80])})
                 continue
-            with open(path, "rb") as f:
-                data = f.read()
+            hive = case.get("opt") == "hive"
+            data = None
+            if not hive:
+                with open(path, "rb") as f:
+                    data = f.read()
             # ------------------------------------------------ C01
             try:
                 pf = fp.ParquetFile(path)
@@ -144,6 +149,10 @@ def replay_chunk(args):
                 out["viol"].append(("C01", dict(sig, what="file written without error cannot be read back",
                                                 exc=type(e).__name__), ci))
                 pf = None
+            if hive:
+                # the files of a multi-file dataset are C02's codec/scheme sweep and C08/C09's business; here: the round trip
+                shutil.rmtree(path, ignore_errors=True)
+                continue
             # ------------------------------------------------ C02
             fv = PR.read_file(data, strict=True)
             # statistics are C04's business (and an in-band NaT/NaN in a REQUIRED column is a "value" only to pqspec)
